@@ -343,8 +343,8 @@ def _run_link(case, ghost):
 
 
 def run_impl(case):
-    gc.collect()
     if case.get("mem") is not None:
+        gc.collect()
         _run_link(case, ghost=True)     # an earlier coupling in the same process / spill directory
         gc.collect()
     return _run_link(case, ghost=False)
